@@ -413,8 +413,7 @@ class Walker:
                     for x_ecef, p_out in zip(xs_ecef, nxt):
                         err = float(np.linalg.norm(self.geo.lla2xyz(p_out) - x_ecef[:3]))
                         self.max_geo_err = max(self.max_geo_err, err / float(np.linalg.norm(x_ecef[:3])))
-                        if err > max(TOL_POS_ABS, TOL_GEO_REL * float(np.linalg.norm(x_ecef[:3]))) \
-                                or abs(p_out[0]) > math.pi / 2 + 1e-15 or abs(p_out[1]) > math.pi + 1e-15:
+                        if err > max(TOL_POS_ABS, TOL_GEO_REL * float(np.linalg.norm(x_ecef[:3]))) or abs(p_out[0]) > math.pi / 2 + 1e-15:
                             fails.append(("ellipsoid", fn, {"step": k, "err_km": err, "lla": p_out.tolist()}))
                 if e["dst"] == "LLA":
                     geo = True
@@ -652,8 +651,8 @@ def measure_transitions(ctx: Ctx, rng: random.Random, V: Viol | None = None):
         y = eci2ecef(x, t)
         return math.atan2(y[1], y[0])
 
-    def record(t0: datetime, k: int):
-        t1 = t0 + timedelta(seconds=1)
+    def record(t0: datetime, k: int, half: int = 0):
+        t1 = t0 + (timedelta(microseconds=500000) if half else timedelta(seconds=1))
         try:
             dl = (lon(dirs[k], t1) - lon(dirs[k], t0) + math.pi) % (2 * math.pi) - math.pi
         except Exception as ex:  # noqa: BLE001 - the real code raised for a date inside the span of its own table
@@ -669,7 +668,7 @@ def measure_transitions(ctx: Ctx, rng: random.Random, V: Viol | None = None):
         adv = round(-dl / OMEGA / UNIT)
         # TLC integers are 32 bit: clamp (10 s of rotation is as wrong as anything larger); the exact value stays in adv_s
         return {"y": d0.year, "m": d0.month, "d": d0.day, "s": s, "adv": max(-1000000000, min(1000000000, adv)),
-                "smooth": dut - dat * 100000000, "dat": dat, "dir": k, "t0": t0.isoformat(), "adv_s": -dl / OMEGA}
+                "smooth": dut - dat * 100000000, "dat": dat, "h": half, "dir": k, "t0": t0.isoformat(), "adv_s": -dl / OMEGA}
 
     ndays = (date(2022, 12, 31) - epoch).days + 1
     recs = [[] for _ in range(ndays)]
@@ -694,8 +693,9 @@ def measure_transitions(ctx: Ctx, rng: random.Random, V: Viol | None = None):
             s = rng.randrange(86399)
         if s >= 86399:
             s = 86398
-        t0 = datetime(dd.year, dd.month, dd.day) + timedelta(seconds=s, microseconds=rng.choice((0, 0, 500000)))
-        r = record(t0, i % len(dirs))
+        half = 1 if i % 5 == 2 else 0                                 # s.0 -> s.5: sub-second resolution of the rotation
+        t0 = datetime(dd.year, dd.month, dd.day) + timedelta(seconds=s, microseconds=0 if half else rng.choice((0, 0, 500000)))
+        r = record(t0, i % len(dirs), half)
         if r is not None:
             recs[(dd - epoch).days].append(r)
     return recs, tab
@@ -729,6 +729,8 @@ def check_clock(ctx: Ctx, res, recs, V: Viol, rng: random.Random) -> None:
                   {"part": "clock", "date": [st["y"], st["m"], st["d"], h, mi, s], "got": float(got)})
         for r in recs[n]:
             ks = st["kinds"] if r["s"] == 86399 else (["minute"] if r["s"] % 60 == 59 else ["second"]) + (["hour"] if r["s"] % 3600 == 3599 else [])
+            if r["h"]:
+                ks = ["half-second"]
             for k in ks:
                 kinds_count[k] = kinds_count.get(k, 0) + 1
             ctx.case(("transition", r["t0"], r["dir"]), nontrivial=True,
@@ -754,20 +756,20 @@ def check_clock(ctx: Ctx, res, recs, V: Viol, rng: random.Random) -> None:
         st = by_n[n]
         for r in recs[n]:
             el = st["elapsed"] if r["s"] == 86399 else 1
-            dev = r["adv"] - (el * 100000000 + r["smooth"])
+            dev = r["adv"] - (50000000 if r["h"] else el * 100000000 + r["smooth"])
             if n not in bad_days:           # accepted by TLC
                 worst = max(worst, abs(dev))
                 continue
             # TLC rejected this day: name the failing record (the verdict is TLC's, this only labels it)
-            if r["dat"] != el - 1:
+            if not r["h"] and r["dat"] != el - 1:
                 raise tlc.MachineryError(f"leap seconds of the bundled table differ from EarthClock.LeapSecondDays at {r['t0']}")
             if abs(dev) > TOL_CONT_UNITS or abs(r["smooth"]) > SMOOTH_MAX_UNITS or (r["s"] < 86399 and r["smooth"] != 0):
                 ks = st["kinds"] if r["s"] == 86399 else (["hour"] if r["s"] % 3600 == 3599 else ["minute"] if r["s"] % 60 == 59 else ["second"])
-                kind = next(k for k in order if k in ks)
+                kind = "half-second" if r["h"] else next(k for k in order if k in ks)
                 named += 1
                 V.add(f"rotation-discontinuous:{kind}",
-                      f"Earth-fixed longitude advances by {r['adv_s']:.8f} s of rotation over the 1 s transition at {r['t0']} "
-                      f"({kind} boundary); expected {el} s + table step {r['smooth'] * UNIT:.7f} s within {TOL_CONT_RAD} rad",
+                      f"Earth-fixed longitude advances by {r['adv_s']:.8f} s of rotation over the {'0.5' if r['h'] else '1'} s transition at {r['t0']} "
+                      f"({kind}); expected {0.5 if r['h'] else el} s + table step {r['smooth'] * UNIT:.7f} s within {TOL_CONT_RAD} rad",
                       {"part": "clock", "record": r, "kinds": ks, "deviation_rad": dev * UNIT * OMEGA})
     if bad_days and not named:
         raise tlc.MachineryError(f"TLC rejected days {sorted(bad_days)[:5]} but the driver cannot name a failing record")
@@ -852,7 +854,7 @@ def run(ctx: Ctx):
 
     recs, _tab = measure_transitions(ctx, rng, V)
     d = ctx.sub("clock")
-    (d / "records.json").write_text(json.dumps([[{k: r[k] for k in ("y", "m", "d", "s", "adv", "smooth", "dat")} for r in day] for day in recs]))
+    (d / "records.json").write_text(json.dumps([[{k: r[k] for k in ("y", "m", "d", "s", "h", "adv", "smooth", "dat")} for r in day] for day in recs]))
     f_clk = pool.submit(tlc.run_tlc, "EarthClock", "EarthClock.cfg", d, workers=1, cont=True, env={"RECORDS_FILE": "records.json"}, timeout=1500)
 
     res = tlc.require_ok(f_lat.result(), "Lattice3")
